@@ -282,6 +282,9 @@ void gen_c06(Gen &g) {
 // generic history generator on small caller buffers (C07, C13, C15 share it with different mixes)
 struct HistCfg {
   int w_asm = 45, w_count = 8, w_chunk = 10, w_offset = 15, w_setter = 8, w_debug = 3, w_other_inst = 4, w_exec = 0;
+  bool opts_at_create = false;  // choose the option state once, right after creation, with the three canonical setters
+                                // (exactly what the isolated-line oracle does, so a tree whose setters compose wrongly
+                                //  cannot desynchronise the model in a check that is not about setters)
   int w_file = 0;    // the file entry points (text taken from a simulated file)
   int w_repeat = 0;  // the same text again at the same offset as an earlier call (after whatever happened in between)
   int max_ops = 30;
@@ -313,6 +316,13 @@ void gen_history_task(Gen &g, Task &t, const HistCfg &cfg) {
     long n = internal ? -1 : r.range(cfg.n_lo, cfg.n_hi);
     t.ops.push_back(mk_create(g, slot, n));
     gi[slot].m.reset_created(!internal, internal ? 0 : n);
+    if (cfg.opts_at_create && r.coin()) {
+      int o = (int)r.below(12);
+      emit_opts(g, t, slot, o / 4, (o / 2) & 1, o & 1);
+      gi[slot].m.mov = o / 4;
+      gi[slot].m.swap = (o / 2) & 1;
+      gi[slot].m.nobase = o & 1;
+    }
   };
   create(0);
   if (cfg.fit_bias && (int)r.below(100) < cfg.fit_bias) {
@@ -542,6 +552,8 @@ void gen_c07(Gen &g) {
   Rng &r = g.r;
   HistCfg cfg;
   cfg.count_on_fit = true;
+  cfg.w_setter = 0;
+  cfg.opts_at_create = true;
   cfg.w_file = 6;
   cfg.p_after_fail_reset = 40;
   int ntasks = 1 + (r.chance(1, 4) ? 1 : 0);
@@ -662,7 +674,8 @@ void gen_c13(Gen &g) {
   cfg.w_count = 3;
   cfg.w_chunk = 14;
   cfg.w_offset = 14;
-  cfg.w_setter = 5;
+  cfg.w_setter = 0;
+  cfg.opts_at_create = true;
   cfg.w_debug = 3;
   cfg.w_other_inst = 2;
   cfg.w_exec = 0;
